@@ -452,6 +452,11 @@ class Interp(object):
             return Ellipsis
         if e.id in ('int', 'float', 'complex', 'str', 'bytes', 'bool', 'tuple', 'list', 'dict', 'set', 'type', 'object', 'len'):
             return getattr(_b, e.id)
+        if e.id in ('isinstance', 'issubclass', 'hasattr', 'getattr', 'sorted', 'min', 'max', 'any', 'all', 'repr', 'ord', 'chr', 'hex', 'reversed', 'enumerate', 'zip', 'iter', 'next') and \
+                not (self.model is not None and self.module is not None and e.id in self.model.module_assigns.get(self.module, {})):
+            # a builtin used as a value (handed to a helper as its test / key function): calling it runs the interpreter's own handler
+            handler = getattr(self, 'builtin_' + e.id)
+            return PyCallable(lambda I_, a, kw, _h=handler: _h(list(a), dict(kw), None, {}), e.id)
         if e.id == 'unicode':
             return str
         # module-level constant of the analysed module
@@ -951,6 +956,8 @@ class Interp(object):
     def materialise(self, v):
         if isinstance(v, LazyGen):
             return v.drain()
+        if hasattr(v, '__next__') and not isinstance(v, (Obj, OneShot)) and type(v).__module__ == 'builtins':
+            return list(v)
         if isinstance(v, OneShot):
             return v.take()
         return v
@@ -961,6 +968,12 @@ class Interp(object):
             return it
         if hasattr(it, '__next__') and not isinstance(it, (Obj, OneShot)):
             return it       # an iterator object of the standard library (itertools.count(), itertools.product(...))
+        if isinstance(it, OneShot):
+            # a one-shot iterator is consumed element by element: a loop left with `break` leaves the rest for whoever comes next
+            def popper(o=it):
+                while o:
+                    yield o.pop(0)
+            return popper()
         return iter(self.iterate(it))
 
     def iterate(self, it):
@@ -976,6 +989,8 @@ class Interp(object):
             return list(it)
         if isinstance(it, range):
             return list(it)
+        if hasattr(it, '__next__') and not isinstance(it, Obj):
+            return list(it)        # an iterator object (of the standard library, or over a list the checker supplied): drained
         raise _Abort('iteration over %r' % (it,))
 
     def bind(self, target, value, env):
@@ -1365,6 +1380,36 @@ class Interp(object):
                     cache[key] = any(k.rsplit('.', 1)[1] == ref for k in self.model.mro(cq))
                     break
         return cache[key]
+
+    def builtin_issubclass(self, args, kwargs, e, env):
+        c, k = args
+        if c is TOP or k is TOP:
+            return TOP
+        ks = k if isinstance(k, tuple) else (k,)
+        if any(x is TOP for x in ks):
+            return TOP
+
+        def chain(x):
+            if isinstance(x, ClassRef):
+                if x.qual is not None and self.model is not None and x.qual in self.model.classes:
+                    return [ClassRef(q.rsplit('.', 1)[1], q) for q in self.model.mro(x.qual)]
+                pyc = getattr(ast, x.name, None)
+                if isinstance(pyc, type):
+                    return [ClassRef(c_.__name__) if c_.__module__ in ('ast', '_ast') else c_ for c_ in pyc.__mro__]
+                if self.model is not None and ('python_minifier.ast_compat.' + x.name) in self.model.classes:
+                    return [x] + [ClassRef(q.rsplit('.', 1)[1]) for q in self.model.mro('python_minifier.ast_compat.' + x.name)[1:]] + [ClassRef('AST'), object]
+                return None
+            if isinstance(x, type):
+                return list(x.__mro__)
+            return None
+        mro = chain(c)
+        if mro is None:
+            return TOP
+        for x in ks:
+            for m in mro:
+                if (isinstance(x, ClassRef) and isinstance(m, ClassRef) and x == m) or (isinstance(x, type) and x is m):
+                    return True
+        return False
 
     def builtin_len(self, args, kwargs, e, env):
         v = args[0]
